@@ -2,7 +2,7 @@
 
 PROPERTIES = {
     'C15': {
-        'units': ['rle', 'bitpack', 'delta'],
+        'units': ['rle', 'bitpack', 'delta', 'bitvec'],
         'level': 'proof',
         'technique': 'Verus function contracts + loop invariants on mechanically extracted codec functions (unbounded); Kani loop-free harness for zig-zag',
         'level_text': 'Deductive proof, for all inputs and lengths, that each contracted codec function meets a sequence-level specification from which the round trip and random-access agreement follow as lemmas over the contracts; bounded stand-ins are listed separately and not counted.',
